@@ -137,6 +137,12 @@ def run(scn):
 def _run(scn, root):
     t = cs.run_world(scn, root=root)
     viol = judge(t)
+    if t.second is not None:
+        for v in judge(t.second):
+            v['key'] += '|second-call'
+            v['facts']['call'] = 2
+            v['message'] = 'second compile() on the same compiler: ' + v['message']
+            viol.append(v)
     specs = scn['modules']
     cyc = any(d in specs and n in specs[d].get('imports', []) for n, sp in specs.items() for d in sp.get('imports', []) if d != n)
     if cyc:
